@@ -35,6 +35,16 @@ strengthened = {
     "C17-d": "C17: empty-string values (mid-line) and values containing TAB / NBSP / ideographic space",
     "C18-d": "C18: new 'sockets' family - several clients of one real Unix/TCP server, the first one leaves",
     "C19-d": "C19: clients that send a blank line (or nothing) and leave without a handshake; SIGALRM watchdog that turns a spinning handler (loop stuck inside one handle) into a violation; unique pool names so that a recycled TCP port of another process is not mistaken for the stopped server",
+    "C12-e": "C12: pool_size assignments in the fault generator (a failing end callback corrupts the room accounting only once the size is reassigned)",
+    "C16-e": "C16: an unknown command of 5000-9000 characters (hence a very long reply) precedes the help round in half of the cases",
+    "C19-e": "C19: clients also send spawn commands (apply / start), in particular while the pool is locked (the reply is an empty line, but it is a reply)",
+    "C20-e": "C20: non-blocking producers (put_nowait on bounded queues, QueueFull caught)",
+    "C04-e": "C04: two pools per scenario half of the time; a task that was created for an invocation, never cancelled and never began is now a C04 clause (lost_invocation)",
+    "C08-e": "C08: pool_size assignments in the C08 generator (while tasks are inside callbacks)",
+    "C13-e": "C13: new 'server' family - a session's pending flush plus the program's own flush while the control server is stopped; pool generator: flush calls whose caller gives up (cancelled flush) are modelled",
+    "C14-e": "C14: exact oracle for stop()/stop_all() also when tasks cancelled before their first step are around (was lenient there)",
+    "C17-e": "C17: a target function that empties the lists it receives, nested-list literals sent repeatedly",
+    "C18-e": "C18 sockets family: the control server is stopped while a client waits in until-closed, then the program closes the pool: the reply is still owed",
     "C18-b": "C18: failing tasks in the pre-population and explicit waiting commands in the line mix (detection was borderline)",
 }
 rows = {}
